@@ -37,6 +37,7 @@ def spec():
                 "born": {"type": "string", "format": "date"},
                 "uid": {"type": "string", "format": "uuid"},
                 "avatar": {"type": "string", "format": "byte"},
+                "blob": {"type": "string", "format": "binary"},  # rendered as bytes: base64 on the wire
                 "score": {"type": "number"},
                 "runs": {"type": "object", "additionalProperties": {"type": "string", "format": "date-time"}},
                 "active": {"type": "boolean"},
